@@ -10,7 +10,8 @@ def programs(seed, n, nops):
     out = []
     for i in range(n):
         mode = ["plain", "plain", "sw", "occ"][i % 4]
-        g = Gen(seed * 100019 + i, mode=mode, nks=1 + i % 3,
+        # the last tenth of the programs pushes the journal over its rotation threshold (sealed journals take part)
+        g = Gen(seed * 100019 + i, mode=mode, nks=1 + i % 3, sealing=(2 + i % 2 if i >= n - max(16, n // 10) else 0),
                 weights=dict(reopen=2.5, snap=0, it=0, tx=0, txop=0, gc=0.3, ks=0.3, delks=0, ingest=3, clear=1.5,
                              major=1.5, rotate=3, step=3))
         p = g.program(nops)
@@ -105,7 +106,8 @@ def run(rep, tier, seed, build):
     st = res["stats"]
     rep.coverage = dict(programs=st["programs"], disagreements_checked=st["disagreements_checked"],
                         evaluations=st["ops"], distinct_nontrivial=res["distinct"],
-                        rule="generated histories with 1-5 reopen cycles, ingestion into empty and non-empty keyspaces over "
+                        rule="generated histories with 1-5 reopen cycles (a tenth of them with 66 MiB fills that seal the journal: eviction "
+                             "watermarks, sealed-journal recovery, `journals` compared with the model), ingestion into empty and non-empty keyspaces over "
                              "existing keys, clear, flush/compaction steps; dump before close and after reopen, full probe "
                              "(scans + point reads) at the end; compared between implementation, model(as_is), oracle(ideal); "
                              "non-trivial = >= 4 distinct operation kinds, distinct by operation-kind sequence",
